@@ -836,7 +836,7 @@ class Undefined(LocalValue):
     """Undefined value, this value must never be used."""
 
     def __str__(self):
-        return f"{self.name} = undefined"
+        return f"{self.ty} {self.name} = undefined"
 
 
 class Const(LocalValue):
